@@ -298,8 +298,9 @@ def write_evidence(prop, tier, base_seed, spec, total, nontrivial, stats, known,
         "wall_s": round(wall, 2),
         "violations": len(violations) + len(regressions),
     }
-    os.makedirs(os.path.join(VERIF_DIR, "evidence"), exist_ok=True)
-    with open(os.path.join(VERIF_DIR, "evidence", f"{prop}.json"), "w") as f:
+    evdir = os.environ.get("VERIF_EVIDENCE_DIR") or os.path.join(VERIF_DIR, "evidence")  # (override: development runs against a scratch tree)
+    os.makedirs(evdir, exist_ok=True)
+    with open(os.path.join(evdir, f"{prop}.json"), "w") as f:
         json.dump(ev, f, indent=1, default=str)
 
 
